@@ -117,6 +117,13 @@ func (c *Class) Evaluation(
 		return err
 	}
 
+	// `class` at the end of a line: the newline is not a class name
+	if nextT == nil || nextT.IsNewLineIdentifier() {
+		p.Unget()
+
+		return fmt.Errorf("syntax error, class name expected")
+	}
+
 	nextFrame := c.getNextFrame(ctx)
 	class := nextT.ToString()
 
